@@ -35,6 +35,8 @@ packed inside a comprehension binds the handler's name in another scope; a child
 passes through the enclosing field unchanged.
 Round 8 (F12): integer conversions of stack offsets are protected, or Packet.unpack rejects an
 offset that is not an integer; includes the Optional pair rule of C08.
+Round 9: every path through add_parent_field_and_packet appends exactly one entry; every use of a
+stack offset that needs an integer (slice bound, index, arithmetic) in the rendering is protected.
 """
 import ast
 import re
@@ -682,7 +684,96 @@ def check_who_creates(ctx):
     ctx.floor('PacketError creation sites', sites, 4)
 
 
+def _roots(func, e, depth=3):
+    """the names a value is computed from, followed through the local assignments of the function
+    (all of them: a local assigned on both branches of an if contributes both values)"""
+    params = {a.arg for a in func.args.args}
+    out, todo, seen = set(), [(e, depth)], set()
+    while todo:
+        x, d = todo.pop()
+        for nm in {y.id for y in ast.walk(x) if isinstance(y, ast.Name)} - {'self', 'len', 'str', 'repr'}:
+            if nm in seen:
+                continue
+            seen.add(nm)
+            asg = [a for a in ast.walk(func) if isinstance(a, ast.Assign) and any(isinstance(t, ast.Name) and t.id == nm for t in a.targets)]
+            if asg and nm not in params and d > 0:
+                for a in asg:
+                    todo.append((a.value, d - 1))
+            else:
+                out.add(nm)
+    return out
+
+
+def check_block_names_its_own_run(ctx, rule='R7-name-binding'):
+    """Round 9.  the name a generated struct block reports (``name = ...`` before the call) is
+    computed from the run *that block* reads or writes: in the generator method that fills the
+    block template, the value of the 'name' key is an expression over the method's own run
+    parameter -- or over a parameter for which every caller passes something computed from the
+    very expression it passes as the run"""
+    repo = ctx.repo
+    cg = repo.cls('CodeGenerator')
+    n = 0
+    for mname, fi in sorted(cg.methods.items()):
+        ps = [a.arg for a in fi.node.args.args][1:]
+        if not ps:
+            continue
+        run = ps[0]
+        for d in ast.walk(fi.node):
+            if not isinstance(d, ast.Dict):
+                continue
+            keys = [k.value for k in d.keys if isinstance(k, ast.Constant)]
+            if 'name' not in keys or not ({'fmt', 'lookup_fields'} & set(keys)):
+                continue
+            v = d.values[keys.index('name')]
+            v = _through_local(fi.node, v)
+            free = {x.id for x in ast.walk(v) if isinstance(x, ast.Name)} - {'self', 'len', 'str', 'repr'}
+            st = '%s: name = %s' % (mname, unparse(v)[:80])
+            n += 1
+            if free <= {run}:
+                if run in free:
+                    ctx.holds(rule, fi, st, 'computed from the run this block packs', d.lineno)
+                else:
+                    ctx.undecided(rule, fi, st, 'the reported name does not depend on the run', d.lineno)
+                continue
+            other = sorted(free - {run})
+            if not all(o in ps for o in other):
+                ctx.undecided(rule, fi, st, 'the reported name is computed from %s' % other, d.lineno)
+                continue
+            # every caller: the argument bound to <other> is computed from the expression bound to <run>
+            verdict = True
+            for cfi in cg.methods.values():
+                for c in ast.walk(cfi.node):
+                    if isinstance(c, ast.Call) and isinstance(c.func, ast.Attribute) and c.func.attr == mname and canon(c.func.value) == 'self':
+                        bound = dict(zip(ps, c.args))
+                        for k_ in c.keywords:
+                            if k_.arg:
+                                bound[k_.arg] = k_.value
+                        if run not in bound or not all(o in bound for o in other):
+                            verdict = None if verdict is True else verdict
+                            continue
+                        rtxt = canon(bound[run])
+                        for o in other:
+                            src = _through_local(cfi.node, bound[o])
+                            names_ = {canon(x) for x in ast.walk(src) if isinstance(x, (ast.Name, ast.Subscript, ast.Attribute))}
+                            roots = _roots(cfi.node, src)
+                            names_ |= roots
+                            if rtxt in names_:
+                                continue
+                            if roots and isinstance(bound[run], ast.Name) and bound[run].id not in roots:
+                                ctx.violation(rule, cfi, '%s: %s(%s, ..., %s=%s)' % (cfi.node.name, mname, rtxt, o, unparse(src)[:50]),
+                                              'the block that packs the run %s is labelled with a name computed from %s, another run: a failure inside it is reported under the names (and, with several sub-runs, at the offset) of fields that are not the ones that failed' % (rtxt, sorted(roots)), c.lineno, witness=True)
+                                verdict = False
+                            elif verdict is True:
+                                verdict = None
+            if verdict is True:
+                ctx.holds(rule, fi, st, 'every caller computes it from the run it passes', d.lineno)
+            elif verdict is None:
+                ctx.undecided(rule, fi, st, 'cannot see that the callers compute %s from the run they pass' % other, d.lineno)
+    ctx.unit('block_names', n)
+
+
 def check(ctx):
+    check_block_names_its_own_run(ctx)
     drivers = check_wrappers(ctx)
     check_who_creates(ctx)
     for d in drivers:
